@@ -17,6 +17,8 @@
 #include "Octree.hpp"
 #include "Photon.hpp"
 #include "PointLocations.hpp"
+#include "VoronoiDensityGrid.hpp"
+#include "VoronoiGeneratorDistribution.hpp"
 #undef private
 #undef protected
 
@@ -66,6 +68,184 @@ static uint64_t mix_off(uint64_t acc, uint64_t i, ll rx, ll ry, ll rz) {
       ((uint64_t)(rx + 100000) * 200003ull + (uint64_t)(ry + 100000)) * 200003ull +
       (uint64_t)(rz + 100000);
   return (acc + (code % 1000000007ull) * (i + 1)) % 1000000007ull;
+}
+
+// ---------------------------------------------------------------- grid-independent chord oracle
+// Tie of a traversal to the geometry of the grid, through the public point location only: the
+// straight line p0 + t*u, t in [0,S] (folded into the box on periodic axes) is cut into the chords
+// of the cells it crosses.  Cells are convex, so two equal cells at the ends of an interval that
+// is shorter than half a box period have that cell in between; different cells are bisected down
+// to the crossing.  The path deposited in every cell must equal its chord, and an absorbed photon
+// must end in the chord of the cell that is returned.
+static CoordinateVector<> chord_pos(const Box<> &box, const bool per[3], const CoordinateVector<> &p0,
+                                    const CoordinateVector<> &u, const double t) {
+  CoordinateVector<> x;
+  for (int i = 0; i < 3; ++i) {
+    const double a = box.get_anchor()[i], s = box.get_sides()[i];
+    double v = p0[i] + t * u[i];
+    if (per[i]) {
+      if (v < a || v >= a + s)
+        v -= std::floor((v - a) / s) * s;
+      if (v < a)
+        v = a;
+      if (v >= a + s)
+        v = a;
+    } else {
+      v = std::min(std::max(v, a), a + s);
+    }
+    x[i] = v;
+  }
+  return x;
+}
+
+struct ChordRef {
+  std::map< uint64_t, double > len; // chord length (in units of t) per cell
+  uint64_t last_cell;               // cell just before t = S
+  uint64_t end_cell;                // cell at t = S
+  bool valid;
+};
+
+static ChordRef chord_reference(const DensityGrid &grid, const Box<> &box, const bool per[3],
+                                const CoordinateVector<> &p0, const CoordinateVector<> &u, const double S) {
+  ChordRef r;
+  r.valid = false;
+  r.last_cell = 0;
+  r.end_cell = 0;
+  if (!(S > 0.) || !std::isfinite(S))
+    return r;
+  // pieces shorter than (a bit less than) half a box period along every periodic axis
+  double piece = S;
+  for (int i = 0; i < 3; ++i)
+    if (per[i] && u[i] != 0.)
+      piece = std::min(piece, 0.45 * box.get_sides()[i] / std::fabs(u[i]));
+  const double npd = std::ceil(S / piece);
+  if (!(npd <= 20000.))
+    return r;
+  const uint64_t np = (uint64_t)npd;
+  const double epst = 1.e-13 * S;
+  struct Iv {
+    double t0, t1;
+    uint64_t c0, c1;
+  };
+  std::vector< Iv > stack;
+  double tprev = 0.;
+  uint64_t cprev = grid.get_cell_index(chord_pos(box, per, p0, u, 0.));
+  for (uint64_t k = 1; k <= np; ++k) {
+    const double tk = (k == np) ? S : S * ((double)k / (double)np);
+    const uint64_t ck = grid.get_cell_index(chord_pos(box, per, p0, u, tk));
+    stack.push_back(Iv{tprev, tk, cprev, ck});
+    uint64_t guard = 0;
+    while (!stack.empty()) {
+      if (++guard > 2000000)
+        return r;
+      const Iv iv = stack.back();
+      stack.pop_back();
+      const double mid = 0.5 * (iv.t0 + iv.t1);
+      if (iv.c0 == iv.c1) {
+        r.len[iv.c0] += iv.t1 - iv.t0;
+      } else if (iv.t1 - iv.t0 <= epst || !(mid > iv.t0 && mid < iv.t1)) {
+        r.len[iv.c0] += 0.5 * (iv.t1 - iv.t0);
+        r.len[iv.c1] += 0.5 * (iv.t1 - iv.t0);
+      } else {
+        const uint64_t cm = grid.get_cell_index(chord_pos(box, per, p0, u, mid));
+        stack.push_back(Iv{mid, iv.t1, cm, iv.c1});
+        stack.push_back(Iv{iv.t0, mid, iv.c0, cm});
+      }
+    }
+    tprev = tk;
+    cprev = ck;
+  }
+  r.last_cell = grid.get_cell_index(chord_pos(box, per, p0, u, S * (1. - 1.e-9)));
+  r.end_cell = cprev;
+  r.valid = true;
+  return r;
+}
+
+// dep: path deposited per cell (same units as t).  Returns "" or the failing clause.
+// A line that runs in (or within rounding of) a wall or an edge between cells lies in the closed
+// boxes of all cells around it: the traversal and the point location may then pick different ones.
+// So when the plain comparison fails, the reference is also evaluated on lines shifted by a
+// rounding-size offset along +-e_i and +-e_i +-e_j, and a deposit has to lie between the smallest
+// and the largest chord of its cell over these lines.
+static std::string chord_oracle(const std::string &gridname, const DensityGrid &grid, const Box<> &box,
+                                const bool per[3], const CoordinateVector<> &p0, const CoordinateVector<> &u,
+                                const std::map< uint64_t, double > &dep, const bool absorbed,
+                                const uint64_t returned) {
+  double S = 0.;
+  for (auto it = dep.begin(); it != dep.end(); ++it)
+    S += it->second;
+  // a wall position carries the rounding of |anchor| + side; along the line this is divided by |u_i|
+  double tol = 1.e-7 * S;
+  for (int i = 0; i < 3; ++i)
+    if (u[i] != 0.)
+      tol = std::max(tol, 1.e-9 * (std::fabs(box.get_anchor()[i]) + box.get_sides()[i]) / std::fabs(u[i]));
+  std::vector< CoordinateVector<> > shifts;
+  shifts.push_back(CoordinateVector<>(0.));
+  double del[3];
+  for (int i = 0; i < 3; ++i)
+    del[i] = 1.e-9 * (std::fabs(box.get_anchor()[i]) + box.get_sides()[i]);
+  for (int i = 0; i < 3; ++i)
+    for (int s = -1; s <= 1; s += 2) {
+      CoordinateVector<> d(0.);
+      d[i] = s * del[i];
+      shifts.push_back(d);
+    }
+  for (int i = 0; i < 3; ++i)
+    for (int j = i + 1; j < 3; ++j)
+      for (int s = -1; s <= 1; s += 2)
+        for (int q = -1; q <= 1; q += 2) {
+          CoordinateVector<> d(0.);
+          d[i] = s * del[i];
+          d[j] = q * del[j];
+          shifts.push_back(d);
+        }
+  std::map< uint64_t, double > lo, hi;
+  std::set< uint64_t > ends;
+  const bool debug = getenv("C16_DEBUG") != nullptr;
+  for (size_t v = 0; v < shifts.size(); ++v) {
+    const ChordRef r = chord_reference(grid, box, per, p0 + shifts[v], u, S);
+    if (!r.valid)
+      return "";
+    ends.insert(r.last_cell);
+    ends.insert(r.end_cell);
+    std::set< uint64_t > cells;
+    for (auto it = dep.begin(); it != dep.end(); ++it)
+      cells.insert(it->first);
+    for (auto it = r.len.begin(); it != r.len.end(); ++it)
+      cells.insert(it->first);
+    for (auto it = lo.begin(); it != lo.end(); ++it)
+      cells.insert(it->first);
+    for (auto c = cells.begin(); c != cells.end(); ++c) {
+      const double b = r.len.count(*c) ? r.len.find(*c)->second : 0.;
+      if (v == 0 || !lo.count(*c)) {
+        // a cell that appears for the first time had chord 0 on the earlier lines
+        lo[*c] = (v == 0) ? b : std::min(0., b);
+        hi[*c] = (v == 0) ? b : std::max(0., b);
+      } else {
+        lo[*c] = std::min(lo[*c], b);
+        hi[*c] = std::max(hi[*c], b);
+      }
+    }
+    bool ok = true;
+    for (auto c = lo.begin(); c != lo.end(); ++c) {
+      const double a = dep.count(c->first) ? dep.find(c->first)->second : 0.;
+      if (debug)
+        fprintf(stderr, "chord v=%lu cell %lu dep %.17g ref [%.17g, %.17g] tol %g S %.17g\n", (unsigned long)v,
+                (unsigned long)c->first, a, c->second, hi[c->first], tol, S);
+      if (!(a >= c->second - tol && a <= hi[c->first] + tol))
+        ok = false;
+    }
+    if (absorbed && !ends.count(returned))
+      ok = false;
+    if (ok)
+      return "";
+  }
+  for (auto c = lo.begin(); c != lo.end(); ++c) {
+    const double a = dep.count(c->first) ? dep.find(c->first)->second : 0.;
+    if (!(a >= c->second - tol && a <= hi[c->first] + tol))
+      return gridname + "-path-deposited-in-a-cell-differs-from-the-chord-of-the-segment-in-that-cell";
+  }
+  return gridname + "-absorbed-photon-does-not-end-in-the-returned-cell";
 }
 
 // ---------------------------------------------------------------- Morton
@@ -672,15 +852,26 @@ static void op_cart(const std::vector< std::string > &w) {
     }
     if (!bad.empty())
       oracle(bad);
-  } else if (sub == "ray" && w.size() == 11) {
+  } else if ((sub == "ray" || sub == "reray") && w.size() == 11) {
     const CoordinateVector<> p0(dbl(w[2]), dbl(w[3]), dbl(w[4]));
     const CoordinateVector<> dir(dbl(w[5]), dbl(w[6]), dbl(w[7]));
     const double tau = dbl(w[8]), sH = dbl(w[9]), sHe = dbl(w[10]);
     for (uint64_t c = 0; c < nc; ++c)
       DensityGrid::iterator(c, *cart).get_ionization_variables().reset_mean_intensities();
-    Photon photon(p0, dir, 1.);
+    // `ray`: a freshly constructed (primary) photon.  `reray`: what the drivers do after an
+    // absorption (PhotonSource::reemit, DustScattering): a photon that was constructed with
+    // another direction and traced, is redirected with the public setters and traced again
+    const bool redirect = (sub == "reray");
+    Photon photon(p0, redirect ? CoordinateVector<>(dir.z(), dir.x(), dir.y()) : dir, 1.);
     photon.set_cross_section(ION_H_n, sH);
     photon.set_cross_section_He_corr(sHe);
+    if (redirect) {
+      cart->interact(photon, tau);
+      for (uint64_t c = 0; c < nc; ++c)
+        DensityGrid::iterator(c, *cart).get_ionization_variables().reset_mean_intensities();
+      photon.set_position(p0);
+      photon.set_direction(dir);
+    }
     DensityGrid::iterator it = cart->interact(photon, tau);
     const CoordinateVector<> pf = photon.get_position();
     const bool absorbed = !(it == cart->end());
@@ -764,6 +955,17 @@ static void op_cart(const std::vector< std::string > &w) {
         if (!onface)
           bad = "cartesian-escaped-inside-the-box";
       }
+    }
+    if (bad.empty()) {
+      // every deposit lies on the chord of the straight segment in that cell (grid independent)
+      std::map< uint64_t, double > dep;
+      for (uint64_t c = 0; c < nc; ++c) {
+        const double J = DensityGrid::iterator(c, *cart).get_ionization_variables().get_mean_intensity(ION_H_n);
+        if (J != 0.)
+          dep[c] = J / sH;
+      }
+      bad = chord_oracle("cartesian", *cart, cart_box, cart_per, p0, dir, dep, absorbed,
+                         absorbed ? (uint64_t)it.get_index() : 0);
     }
     if (!bad.empty())
       oracle(bad);
@@ -1104,7 +1306,7 @@ static void op_amrd(const std::vector< std::string > &w) {
       }
     return;
   }
-  if (sub == "ray" && w.size() == 10) {
+  if ((sub == "ray" || sub == "reray") && w.size() == 10) {
     const CoordinateVector<> p0(dbl(w[2]), dbl(w[3]), dbl(w[4]));
     const CoordinateVector<> dir(dbl(w[5]), dbl(w[6]), dbl(w[7]));
     const double tau = dbl(w[8]), sH = dbl(w[9]);
@@ -1118,9 +1320,19 @@ static void op_amrd(const std::vector< std::string > &w) {
       oracle("locate-index-out-of-range amrdensitygrid");
       return;
     }
-    Photon photon(p0, dir, 1.);
+    // `reray`: a photon constructed with another direction, traced, then redirected with the
+    // public setters (re-emission / scattering) and traced again
+    const bool redirect = (sub == "reray");
+    Photon photon(p0, redirect ? CoordinateVector<>(dir.z(), dir.x(), dir.y()) : dir, 1.);
     photon.set_cross_section(ION_H_n, sH);
     photon.set_cross_section_He_corr(0.);
+    if (redirect) {
+      amrd->interact(photon, tau);
+      for (uint64_t c = 0; c < nc; ++c)
+        DensityGrid::iterator(c, *amrd).get_ionization_variables().reset_mean_intensities();
+      photon.set_position(p0);
+      photon.set_direction(dir);
+    }
     DensityGrid::iterator it = amrd->interact(photon, tau);
     const CoordinateVector<> pf = photon.get_position();
     const bool absorbed = !(it == amrd->end());
@@ -1219,6 +1431,160 @@ static void op_amrd(const std::vector< std::string > &w) {
       if (wrapped)
         bad = "amrdensitygrid-periodic-wrap-enters-wrong-child-of-refined-neighbour";
     }
+    if (bad.empty()) {
+      std::map< uint64_t, double > dep;
+      for (uint64_t c = 0; c < nc; ++c) {
+        const double J = DensityGrid::iterator(c, *amrd).get_ionization_variables().get_mean_intensity(ION_H_n);
+        if (J != 0.)
+          dep[c] = J / sH;
+      }
+      bad = chord_oracle("amrdensitygrid", *amrd, amrd_box, amrd_per, p0,
+                         CoordinateVector<>(dir.x() / dlen, dir.y() / dlen, dir.z() / dlen), dep,
+                         absorbed && it.get_index() < nc, absorbed ? (uint64_t)it.get_index() : 0);
+    }
+    if (!bad.empty())
+      oracle(bad);
+    return;
+  }
+  std::cout << "bad-op\n";
+}
+
+// ---------------------------------------------------------------- VoronoiDensityGrid (oracle only)
+// No Lean model (C15 is not applicable): the real class is driven and judged by grid-independent
+// oracles only.  Generators are given explicitly; the Lloyd iterations of initialize() are run.
+class HarnessGeneratorDistribution : public VoronoiGeneratorDistribution {
+public:
+  std::vector< CoordinateVector<> > pos;
+  size_t next;
+  HarnessGeneratorDistribution() : next(0) {}
+  virtual generatornumber_t get_number_of_positions() const { return pos.size(); }
+  virtual CoordinateVector<> get_position() { return pos[next++ % pos.size()]; }
+};
+static VoronoiDensityGrid *vor = nullptr;
+static Box<> vor_box;
+static std::vector< double > vor_xt, vor_dt;
+
+static void op_vor(const std::vector< std::string > &w) {
+  const std::string &sub = w[1];
+  static const bool noper[3] = {false, false, false};
+  if (sub == "new" && w.size() >= 12) {
+    delete vor; // (deletes the generator distribution as well)
+    vor = nullptr;
+    const std::string type = w[2];
+    const uint64_t lloyd = u64(w[3]);
+    vor_box = Box<>(CoordinateVector<>(dbl(w[4]), dbl(w[5]), dbl(w[6])),
+                    CoordinateVector<>(dbl(w[7]), dbl(w[8]), dbl(w[9])));
+    HarnessGeneratorDistribution *gen = new HarnessGeneratorDistribution();
+    size_t q = 11;
+    for (; q + 2 < w.size() && w[q] != "|"; q += 3)
+      gen->pos.push_back(CoordinateVector<>(dbl(w[q]), dbl(w[q + 1]), dbl(w[q + 2])));
+    vor_dt.clear();
+    vor_xt.clear();
+    for (++q; q < w.size() && w[q] != "|"; ++q)
+      vor_dt.push_back(dbl(w[q]));
+    for (++q; q < w.size(); ++q)
+      vor_xt.push_back(dbl(w[q]));
+    vor = new VoronoiDensityGrid(gen, vor_box, type, (uint_fast8_t)lloyd, CoordinateVector< bool >(false));
+    HarnessDensityFunction df;
+    std::pair< cellsize_t, cellsize_t > block = std::make_pair(0, vor->get_number_of_cells());
+    vor->initialize(block, df);
+    const uint64_t nc = vor->get_number_of_cells();
+    double vol = 0.;
+    for (uint64_t c = 0; c < nc; ++c) {
+      IonizationVariables &iv = DensityGrid::iterator(c, *vor).get_ionization_variables();
+      iv.set_number_density(vor_dt.empty() ? 1. : vor_dt[c % vor_dt.size()]);
+      iv.set_ionic_fraction(ION_H_n, vor_xt.empty() ? 1. : vor_xt[c % vor_xt.size()]);
+      iv.set_ionic_fraction(ION_He_n, 0.);
+      vol += vor->get_cell_volume((cellsize_t)c);
+    }
+    std::cout << "vor new " << nc << "\n";
+    const double bv = vor_box.get_sides().x() * vor_box.get_sides().y() * vor_box.get_sides().z();
+    if (!(std::fabs(vol - bv) <= 1.e-9 * std::fabs(bv)))
+      oracle("voronoi-volumes-do-not-sum-to-box-volume");
+    // every generator (the position the grid reports as the midpoint of the cell) lies in its cell
+    for (uint64_t c = 0; c < nc; ++c)
+      if (vor->get_cell_index(vor->get_cell_midpoint((cellsize_t)c)) != c) {
+        oracle("voronoi-generator-is-not-located-in-its-own-cell");
+        break;
+      }
+    return;
+  }
+  if (!vor) {
+    std::cout << "bad-op\n";
+    return;
+  }
+  const uint64_t nc = vor->get_number_of_cells();
+  if (sub == "loc" && w.size() == 5) {
+    const CoordinateVector<> p(dbl(w[2]), dbl(w[3]), dbl(w[4]));
+    const uint64_t c = vor->get_cell_index(p);
+    std::cout << "vor loc " << c << "\n";
+    if (c >= nc) {
+      oracle("voronoi-located-cell-does-not-exist");
+      return;
+    }
+    // the defining property of a Voronoi cell: no other generator is closer
+    const double dc = (p - vor->get_cell_midpoint((cellsize_t)c)).norm();
+    for (uint64_t k = 0; k < nc; ++k)
+      if ((p - vor->get_cell_midpoint((cellsize_t)k)).norm() < dc * (1. - 1.e-9) - 1.e-12 * vor_box.get_sides().norm()) {
+        oracle("voronoi-located-cell-is-not-the-cell-of-the-nearest-generator");
+        break;
+      }
+    return;
+  }
+  if ((sub == "ray" || sub == "reray") && w.size() == 10) {
+    const CoordinateVector<> p0(dbl(w[2]), dbl(w[3]), dbl(w[4]));
+    const CoordinateVector<> dir(dbl(w[5]), dbl(w[6]), dbl(w[7]));
+    const double tau = dbl(w[8]), sH = dbl(w[9]);
+    for (uint64_t c = 0; c < nc; ++c)
+      DensityGrid::iterator(c, *vor).get_ionization_variables().reset_mean_intensities();
+    const bool redirect = (sub == "reray");
+    Photon photon(p0, redirect ? CoordinateVector<>(dir.z(), dir.x(), dir.y()) : dir, 1.);
+    photon.set_cross_section(ION_H_n, sH);
+    photon.set_cross_section_He_corr(0.);
+    if (redirect) {
+      vor->interact(photon, tau);
+      for (uint64_t c = 0; c < nc; ++c)
+        DensityGrid::iterator(c, *vor).get_ionization_variables().reset_mean_intensities();
+      photon.set_position(p0);
+      photon.set_direction(dir);
+    }
+    DensityGrid::iterator it = vor->interact(photon, tau);
+    const CoordinateVector<> pf = photon.get_position();
+    const bool absorbed = !(it == vor->end());
+    std::map< uint64_t, double > dep;
+    double total = 0., taudone = 0., kmax = 0.;
+    for (uint64_t c = 0; c < nc; ++c) {
+      const IonizationVariables &iv = DensityGrid::iterator(c, *vor).get_ionization_variables();
+      const double J = iv.get_mean_intensity(ION_H_n);
+      const double kappa = iv.get_number_density() * sH * iv.get_ionic_fraction(ION_H_n);
+      kmax = std::max(kmax, kappa);
+      if (J != 0.) {
+        dep[c] = J / sH;
+        total += J;
+        taudone += (J / sH) * kappa;
+      }
+    }
+    std::cout << "vor ray " << (absorbed ? (int64_t)it.get_index() : -1) << " " << showF(pf.x()) << " "
+              << showF(pf.y()) << " " << showF(pf.z()) << " " << dep.size() << " " << showF(total) << "\n";
+    const double S = total / sH;
+    const double diag = vor_box.get_sides().norm();
+    const double dlen = dir.norm();
+    std::string bad;
+    // the traversal nudges the origin by 1e-12 * diagonal a few times
+    for (int i = 0; i < 3 && bad.empty(); ++i)
+      if (std::fabs(pf[i] - p0[i] - S * dir[i]) > 1.e-9 * (S * dlen + diag) + 1.e-9 * std::fabs(vor_box.get_anchor()[i]))
+        bad = "voronoi-path-sum-differs-from-distance-travelled";
+    if (bad.empty()) {
+      if (absorbed) {
+        if (std::fabs(taudone - tau) > 1.e-8 * tau + 1.e-10 * kmax * diag / dlen)
+          bad = "voronoi-absorbed-but-optical-depth-not-reached";
+      } else if (taudone > tau * (1. + 1.e-8) + 1.e-10 * kmax * diag / dlen) {
+        bad = "voronoi-escaped-although-optical-depth-was-reached";
+      }
+    }
+    if (bad.empty())
+      bad = chord_oracle("voronoi", *vor, vor_box, noper, p0, dir, dep, absorbed,
+                         absorbed ? (uint64_t)it.get_index() : 0);
     if (!bad.empty())
       oracle(bad);
     return;
@@ -1259,6 +1625,8 @@ int main() {
       op_pl(w);
     else if (o == "oct" && w.size() >= 2)
       op_oct(w);
+    else if (o == "vor" && w.size() >= 2)
+      op_vor(w);
     else
       std::cout << "bad-op\n";
   }
